@@ -460,6 +460,39 @@ package dsl
 //@   ensures nested_types_lose_the_protocol_context: typeof(node) == *TypeCase ==> typeof(lastArg("dsl.(VisitorWithContext[Node]).VisitChildren", 2)) != *ProtocolDefinition
 //@ observe-args dsl.(VisitorWithContext[Node]).VisitChildren
 
+// Unions (docs: "adding or removing types of a union" is a change that is reported, with a warning): two unions with a
+// different number of cases are never "unchanged". Matching is positional unless typesReordered is set.
+//@ func detectUnionChanges
+//@   property C06
+//@   requires newType != nil && oldType != nil
+//@   invariant 1: len(newMatches) == len(newType.Cases) && len(oldMatches) == len(oldType.Cases)
+//@   invariant 1: !typesReordered ==> (forall k in 0..len(newMatches) :: newMatches[k] ==> k < len(oldMatches)) && (forall k in 0..len(oldMatches) :: oldMatches[k] ==> k < len(newMatches))
+//@   invariant 2: len(newMatches) == len(newType.Cases) && len(oldMatches) == len(oldType.Cases)
+//@   invariant 2: !typesReordered ==> (forall k in 0..len(newMatches) :: newMatches[k] ==> k < len(oldMatches)) && (forall k in 0..len(oldMatches) :: oldMatches[k] ==> k < len(newMatches))
+//@   invariant 3: allMatch ==> (forall k in 0..rangeindex+1 :: newMatches[k])
+//@   invariant 4: allMatch ==> (forall k in 0..len(newMatches) :: newMatches[k]) && (forall k in 0..rangeindex+1 :: oldMatches[k])
+//@   ensures a_different_number_of_cases_is_a_change: lastResult("dsl.(*TypeCases).IsUnion") && len(oldType.Cases) != len(newType.Cases) ==> result != nil
+
+// Type references: an unknown name, a reference to a protocol and a wrong number of type arguments are errors of
+// resolveType; both passes that resolve references report its error at the reference and descend into type arguments.
+//@ func resolveType
+//@   property C09
+//@   requires simpleType != nil
+//@   ensures unknown_name_is_an_error: lastResult(resolveTypeByName).r1 != nil ==> result != nil
+//@   ensures wrong_generic_arity_is_an_error: lastResult(resolveTypeByName).r1 == nil && oldheap(len(lastResult(resolveTypeByName).r0.GetDefinitionMeta().TypeParameters) != len(simpleType.TypeArguments)) ==> result != nil
+//@ func resolveTypes$1
+//@   property C09
+//@   requires errorSink != nil
+//@   ensures always_descends: called("dsl.(VisitorWithContext[*visitorContext]).VisitChildren")
+//@   ensures every_reference_is_resolved: typeof(node) == *SimpleType ==> called(resolveType)
+//@   ensures unresolved_reference_is_an_error: typeof(node) == *SimpleType && errSeen(resolveType) ==> called("validation.(*ErrorSink).Add")
+//@ func convertGenericReferences$1
+//@   property C09
+//@   requires errorSink != nil
+//@   ensures always_descends: called("dsl.(VisitorWithContext[visitorContext]).VisitChildren")
+//@   ensures every_reference_is_resolved: typeof(node) == *SimpleType ==> called(resolveType)
+//@   ensures unresolved_reference_is_an_error: typeof(node) == *SimpleType && errSeen(resolveType) ==> called("validation.(*ErrorSink).Add")
+
 // Union rules apply to every union of the model, also to one written as a generic type argument
 // (`Foo<[int, int]>`, `!generic {name: Foo, args: [[int, int]]}`): the pass descends below every node.
 //@ func validateUnionCases$1
